@@ -97,7 +97,9 @@ def static_family(tier):
         yield from _fam("s1a:1pos,n<=3,L=2,prio", H(1, 3), ["x"], (0, 1), 2, 2, ("plain", "cn", "walker"), None)
         yield from _fam("s1b:1pos,n<=3,L=3", H(1, 3), ["x"], (0,), 3, 3, ("plain", "cn"), None)
         yield from _fam("s2:2pos,n<=2,L=2", H(1, 2), ["xy"], (0,), 2, 2, ("plain", "cn"), 3)
+        yield from _fam("sf:flavoured (ABC with a virtual subclass whose base is not accepted, protocol),1pos,L=2", FLAV(), ["x"], (0,), 2, 2, ("plain", "cn"), None)
     else:
+        yield from _fam("SF:flavoured (ABC / virtual subclass, protocol, twins),1pos,L<=3,prio", FLAV(True), ["x"], (0, 1), 2, 3, ("plain", "cn"), None)
         yield from _fam("S1:1pos,n<=4,L<=3,prio", H(1, 4), ["x"], (0, 1), 2, 3, ("plain", "cn", "next"), None)
         yield from _fam("S1w:1pos,n<=3,L<=3,prio,walker", H(1, 3), ["x"], (0, 1), 2, 3, ("walker",), None)
         yield from _fam("S2:2pos,n<=2,L=2,prio", H(1, 2), ["xy"], (0, 1), 2, 2, ("plain", "cn"), 4)
@@ -115,6 +117,10 @@ def introspection_family(tier):
             for j in range(3):
                 for vn in h.type_names:
                     yield "s1i:1pos,n=2,L=3,one call_next(other value),introspection ops", h, descs, (j, vn), 3
+
+
+def FLAV(all_=False):
+    return [gen.FlavouredHierarchy.get(f) for f in (("abc-sub", "proto") if not all_ else ("abc", "abc-sub", "proto", "both", "twins"))]
 
 
 def _fam(name, hiers, shapes, prios, lo, hi, variants, depth):
@@ -137,7 +143,7 @@ def make_program(h, descs, variant):
     else:
         mspecs = spaces.mspecs_of(descs, body=variant)
     npos = 2 if descs[0][0] == "xy" else 1
-    names = h.type_names
+    names = getattr(h, "value_names", h.type_names)  # (abstract classes of a flavoured hierarchy have no instances)
     import itertools
 
     sig_names = [tuple(t) for t in itertools.product(names, repeat=npos)]
@@ -231,7 +237,10 @@ def replay(case):
         return c04_dep.replay(case)
     from .c02 import _anc
 
-    h = Hierarchy.get([frozenset(int(b[1:]) for b in _anc(case["hier"], c)) for c in case["hier"]["classes"]])
+    if "flavoured" in case["hier"]:
+        h = gen.FlavouredHierarchy.get(case["hier"]["flavoured"])
+    else:
+        h = Hierarchy.get([frozenset(int(b[1:]) for b in _anc(case["hier"], c)) for c in case["hier"]["classes"]])
     descs = None
     classes = dict(h.classes)
     classes["list"] = list
